@@ -95,6 +95,8 @@ def check_case(case):
         cls.append("numeric-sep:" + case["sep"])
     if case.get("leapday"):
         cls.append("format:29-february")
+    if case.get("foreign_order"):
+        cls.append("numeric-order:not-the-locale's")
     if both:
         cls.append("mode:both")
     present = case.get("present")
@@ -284,6 +286,12 @@ def cases(draw):
                 numeric_ambiguous = True  # a bare two-digit number next to a month name is a year in year-first locales
         else:
             order = data.info(lang).get("date_order", "MDY")
+            own_order = True
+            if draw(st.integers(0, 3)) == 0:
+                # the fields in another order than the locale's own (ISO-style year-first strings in a day-first locale, ...):
+                # nothing is claimed about how they are read, the filter/clock relations hold all the same
+                order = draw(st.sampled_from(["YMD", "YMD", "DMY", "MDY", "YDM"]))
+                own_order = False
             f = {"D": ("00" if zero else "%02d" % d) if has["day"] else None, "M": "%02d" % m if has["month"] else None,
                  "Y": "%04d" % y if has["year"] else None}
             nums = [f[ch] for ch in order if f[ch]]
@@ -293,6 +301,9 @@ def cases(draw):
             body = " ".join(toks + [sep.join(nums)] if nums else toks)
             if sep != "/":
                 c["sep"] = sep
+            if not own_order:
+                numeric_ambiguous = True
+                c["foreign_order"] = True
             if nums and len(nums) == 2 or (len(nums) == 1 and not has["year"]):
                 # one or two bare numeric fields can be read as other parts (day vs month by the locale's order,
                 # a two-digit field as a year): the construction does not say which parts the string states
